@@ -50,7 +50,7 @@ BOUNDS = {
         "assignments U all single-face flips of all-Dir and all-Neu). Block P (periodic map): Tensor 2x2 /per-x, /per-y, "
         "Tensor 3x2 /per-xy, C(3,3) /per-y, Tensor 3x2 /per-y *1e3 x 4 K x default eta x all assignments. Block S: "
         "scale 1e-3 / 1e3 on perturbed letters and eta = 0.25. Purity digest on every evaluation, reuse on every 4th. Block F (partition_arguments in {num_subproblems 2, 3, max_memory "
-        "forcing 2 parts}, K=full, python, side-wise U single flips): C(2,2), C(2,2)~, C(3,2)~@shear, C(3,3), C(4,2), T(2,2), T(2,2)~, "
+        "forcing 2 parts}, K=full, python, side-wise U single flips; 3-d: 2 parts, side-wise only): C(2,2), C(2,2)~, C(3,2)~@shear, C(3,3), C(4,2), T(2,2), T(2,2)~, "
         "C(2,2,2), C(2,2,2)@shear, Tet(1,1,1)~, one embedded and one numba case; oracle = exactness of the split matrices AND equality "
         "(1e-12) of every stored matrix with an unsplit discretization on separate parameter objects. Block E (2-d grids rotated into tilted planes rx45 / gen / gen2 "
         "and translated; K in {Q K_plane Q^T, full 3x3, rotated 3x3}; fields linear in the 3-d coordinates; oracle with the "
@@ -160,8 +160,11 @@ def cases(tier):
              {"kind": "C", "n": [4, 2]}, t22(), t22(pert=[[4, [-1, 1]]]), {"kind": "C", "n": [2, 2, 2]},
              {"kind": "C", "n": [2, 2, 2], "affine": "shear"}, {"kind": "Tet", "n": [1, 1, 1], "pert": [[0, [1, -1, 1]]]}]
     for spec in small:
+        three_d = spec["kind"] == "Tet" or len(spec["n"]) == 3
         for part in ({"num_subproblems": 2}, {"num_subproblems": 3}, {"max_memory_parts": 2}):
-            _emit(out, spec, "full", None, "python", "flip1", 40, partition=part)
+            if tier == "quick" and three_d and part == {"num_subproblems": 3}:
+                continue
+            _emit(out, spec, "full", None, "python", "side" if (tier == "quick" and three_d) else "flip1", 40, partition=part)
     _emit(out, c22(pert=[[4, [1, -1]]], embed="gen"), "Qplane", None, "python", "flip1", 40, partition={"num_subproblems": 2})
     _emit(out, {"kind": "C", "n": [3, 3]}, "rot", None, "numba", "flip1", 40, partition={"num_subproblems": 2})
     if tier == "thorough":
